@@ -65,10 +65,16 @@ func newSampleIterator(iter iterators.Iterator[entry], expr *logql.RangeAggregat
 		}
 	}
 
+	bySet := buildSet(nil, by...)
+	if g := expr.Grouping; g != nil && !g.Without && bySet == nil {
+		// by (): restrict to the empty label set.
+		bySet = map[string]struct{}{}
+	}
+
 	return &sampleIterator{
 		iter:    iter,
 		sampler: sampler,
-		by:      buildSet(nil, by...),
+		by:      bySet,
 		without: buildSet(nil, without...),
 	}, nil
 }
